@@ -17,6 +17,8 @@
 (* Data.  A byte string is a sequence of 0..255.                            *)
 (*  seg   = [k |-> "lit", s |-> bytes, n |-> <<>>]   literal segment        *)
 (*        | [k |-> "param", s |-> <<>>, n |-> bytes] the placeholder {n}    *)
+(*        | [k |-> "pre", s |-> bytes, n |-> bytes]  literal s then {n} to  *)
+(*          the end of the segment ("key={value}", "v{ver}")               *)
 (*  op    = [method |-> bytes (upper case), segs |-> Seq(seg),              *)
 (*           trail |-> BOOLEAN]      template "/" seg "/" seg ... ["/"]     *)
 (*          (segs = <<>> is the template "/")                               *)
@@ -124,7 +126,7 @@ EscapedPathOf(t) ==
 (***************************************************************************)
 (* Templates, base paths and their texts.                                  *)
 (***************************************************************************)
-SegText(sg) == IF sg.k = "lit" THEN sg.s ELSE <<LBRACE>> \o sg.n \o <<RBRACE>>
+SegText(sg) == IF sg.k = "lit" THEN sg.s ELSE sg.s \o <<LBRACE>> \o sg.n \o <<RBRACE>>     \* s = <<>> for "param"
 
 RECURSIVE SegsText(_)
 SegsText(segs) == IF segs = <<>> THEN <<>> ELSE <<SLASH>> \o SegText(Head(segs)) \o SegsText(Tail(segs))
@@ -145,7 +147,9 @@ TPar(n)  == [k |-> "param", s |-> <<>>, n |-> n]
 RECURSIVE SegsPattern(_)
 SegsPattern(segs) ==
   IF segs = <<>> THEN <<>>
-  ELSE <<TLit(<<SLASH>>), IF Head(segs).k = "lit" THEN TLit(Head(segs).s) ELSE TPar(Head(segs).n)>>
+  ELSE (CASE Head(segs).k = "lit"   -> <<TLit(<<SLASH>>), TLit(Head(segs).s)>>
+          [] Head(segs).k = "param" -> <<TLit(<<SLASH>>), TPar(Head(segs).n)>>
+          [] Head(segs).k = "pre"   -> <<TLit(<<SLASH>>), TLit(Head(segs).s), TPar(Head(segs).n)>>)
        \o SegsPattern(Tail(segs))
 
 (***************************************************************************)
@@ -239,10 +243,17 @@ OpIdx(api, M) == SelectSeq([i \in DOMAIN api.ops |-> i], LAMBDA i : api.ops[i].m
 DeclRecords(api, M) ==
   LET idx == OpIdx(api, M) IN [k \in DOMAIN idx |-> [pat |-> FullPattern(api, api.ops[idx[k]]), value |-> idx[k]]]
 
-Fits(api, i, M, cpath) ==
-  api.ops[i].method = M /\ Derivs(FullPattern(api, api.ops[i]), cpath, FALSE) # {}
+(* empty = TRUE also counts instantiations in which a placeholder that does not span its whole segment ("k={x}",    *)
+(* "v{x}") takes the empty text.  Named deviation EmptyPrefixedParam: the statement does not say whether "/v" or      *)
+(* "/k=" instantiates such a template; the code routes it and then refuses the empty required parameter (422, no       *)
+(* handler).  Where a template fits only in this way the outcome is left open; for whole-segment placeholders the two  *)
+(* readings coincide on cleaned paths.                                                                                *)
+FitsE(api, i, M, cpath, empty) ==
+  api.ops[i].method = M /\ Derivs(FullPattern(api, api.ops[i]), cpath, empty) # {}
+Fits(api, i, M, cpath) == FitsE(api, i, M, cpath, FALSE)
 
-FitMethods(api, cpath) == {M \in Methods(api) : \E i \in DOMAIN api.ops : Fits(api, i, M, cpath)}
+FitMethodsE(api, cpath, empty) == {M \in Methods(api) : \E i \in DOMAIN api.ops : FitsE(api, i, M, cpath, empty)}
+FitMethods(api, cpath) == FitMethodsE(api, cpath, FALSE)
 
 ParamSet(ps) == {ps[j] : j \in DOMAIN ps}
 
@@ -262,19 +273,22 @@ RanOK(api, M, cpath, i, params) ==
 DispatchWhy(api, req, obs) ==
   LET M     == Upper(req.method)
       cpath == Clean(req.path)
-      fit   == FitMethods(api, cpath)
+      fit   == FitMethodsE(api, cpath, FALSE)
+      fitE  == FitMethodsE(api, cpath, TRUE)
   IN IF obs.panic THEN "panic"
      ELSE IF Len(obs.ran) > 1 THEN "more-than-one-handler-ran"
      ELSE IF Len(obs.ran) = 1
           THEN (IF ~(obs.ran[1] \in DOMAIN api.ops /\ api.ops[obs.ran[1]].method = M) THEN "handler-of-another-method-ran"
-                ELSE IF ~Fits(api, obs.ran[1], M, cpath) THEN "handler-ran-whose-template-does-not-fit"
+                ELSE IF ~FitsE(api, obs.ran[1], M, cpath, TRUE) THEN "handler-ran-whose-template-does-not-fit"
                 ELSE IF ~RanOK(api, M, cpath, obs.ran[1], obs.params) THEN "wrong-operation-or-parameters"
                 ELSE "ok")
      ELSE IF M \in fit THEN "no-handler-ran-although-a-template-fits"
+     ELSE IF M \in fitE THEN "ok"                                   \* EmptyPrefixedParam: refused without a handler
      ELSE IF ~LookupAllowed(DeclRecords(api, M), cpath, NoObs) THEN "no-handler-ran-although-a-template-fits"
      ELSE IF fit # {} THEN (IF obs.status # 405 THEN "405-expected"
-                            ELSE IF obs.allow # fit THEN "allow-set"
+                            ELSE IF ~(fit \subseteq obs.allow /\ obs.allow \subseteq fitE) THEN "allow-set"
                             ELSE "ok")
+     ELSE IF fitE # {} /\ obs.status = 405 THEN (IF obs.allow # {} /\ obs.allow \subseteq fitE THEN "ok" ELSE "allow-set")
      ELSE IF obs.status # 404 THEN "404-expected"
      ELSE IF obs.allow # {} THEN "allow-on-404"
      ELSE "ok"
@@ -284,14 +298,19 @@ DispatchAllowed(api, req, obs) == DispatchWhy(api, req, obs) = "ok"
 (***************************************************************************)
 (* Well-formedness (what C01 quantifies over).                              *)
 (***************************************************************************)
-OpShape(op) == <<op.method, [i \in DOMAIN op.segs |-> IF op.segs[i].k = "lit" THEN op.segs[i] ELSE TPar(<<>>)], op.trail>>
-ParamNames(op) == LET ps == SelectSeq(op.segs, LAMBDA sg : sg.k = "param") IN [i \in DOMAIN ps |-> ps[i].n]
+OpShape(op) == <<op.method, [i \in DOMAIN op.segs |-> [op.segs[i] EXCEPT !.n = <<>>]], op.trail>>
+ParamNames(op) == LET ps == SelectSeq(op.segs, LAMBDA sg : sg.k # "lit") IN [i \in DOMAIN ps |-> ps[i].n]
+LitOK(t) == /\ t # <<>> /\ t # <<DOT>> /\ t # <<DOT, DOT>>
+            /\ t[1] \notin {COLON, STAR}
+            /\ \A k \in DOMAIN t : t[k] \notin {SLASH, HASH, LBRACE, RBRACE}
+            /\ \A k \in DOMAIN t : k > 1 /\ t[k] \in {COLON, STAR} => t[k - 1] # 61     \* no "=:" "=*" inside a literal
 WellFormedOp(op) ==
   /\ \A i, j \in DOMAIN ParamNames(op) : i # j => ParamNames(op)[i] # ParamNames(op)[j]
-  /\ \A i \in DOMAIN op.segs : op.segs[i].k = "lit" =>
-        /\ op.segs[i].s # <<>> /\ op.segs[i].s # <<DOT>> /\ op.segs[i].s # <<DOT, DOT>>
-        /\ op.segs[i].s[1] \notin {COLON, STAR}
-        /\ \A k \in DOMAIN op.segs[i].s : op.segs[i].s[k] \notin {SLASH, HASH, LBRACE, RBRACE}
+  /\ \A i \in DOMAIN op.segs : op.segs[i].k \in {"lit", "pre"} => LitOK(op.segs[i].s)
+  \* denco only treats a key as parameterised when it contains "/:" "/*" or "=:": a placeholder that neither opens its
+  \* segment nor follows '=' needs another one in the template that does
+  /\ \A i \in DOMAIN op.segs : (op.segs[i].k = "pre" /\ op.segs[i].s[Len(op.segs[i].s)] # 61) =>
+        \E j \in DOMAIN op.segs : op.segs[j].k = "param" \/ (op.segs[j].k = "pre" /\ op.segs[j].s[Len(op.segs[j].s)] = 61)
 WellFormedAPI(api) ==
   /\ \A i \in DOMAIN api.ops : WellFormedOp(api.ops[i])
   /\ \A i, j \in DOMAIN api.ops : i # j => OpShape(api.ops[i]) # OpShape(api.ops[j])
